@@ -211,7 +211,124 @@ def run_ladder(case):
     return res
 
 
-KINDS = {"ladder": run_ladder, "block": run_block, "one": run_one, "posterior": run_posterior}
+# ------------------------------------------------------------------------------------- typed histories, several live objects
+ILOGL = [-700, -10, 0, 3, 700]
+ILOGZ = [-5, 0, 7]
+SCALAR_SPELL = {"float": float, "int": int, "np.float64": np.float64, "np.float32": np.float32, "np.int64": np.int64, "0-d array": lambda v: np.array(float(v))}
+ARRAY_SPELL = {"f64": lambda b: np.array(b, dtype=float), "i64": lambda b: np.array(b, dtype=np.int64), "i32": lambda b: np.array(b, dtype=np.int32),
+               "f32": lambda b: np.array(b, dtype=np.float32), "list": lambda b: [float(v) for v in b], "int-list": lambda b: [int(v) for v in b],
+               "readonly": lambda b: _ro(np.array(b, dtype=float)), "strided": lambda b: np.array([v for x in b for v in (x, -1.0)], dtype=float)[::2]}
+
+
+def _ro(a):
+    a.setflags(write=False)
+    return a
+
+
+def build_typed(batches, betas, logzs, aspell, bspell, zspell):
+    from tempest.state_manager import StateManager
+
+    st = StateManager(1)
+    for b, be, lz in zip(batches, betas, logzs):
+        bb = SCALAR_SPELL[bspell](be) if (bspell not in ("int", "np.int64") or float(be) in (0.0, 1.0)) else float(be)
+        st.update_current({"logl": ARRAY_SPELL[aspell](b), "beta": bb, "logz": SCALAR_SPELL[zspell](lz)})
+        st.commit_current_to_history()
+    return st
+
+
+def _compare(res, key, msg, st, batches, betas, logzs, beta, cc, single=False):
+    try:
+        lw, lz = st.compute_logw_and_logz(beta, normalize=False)
+        lwn, _ = st.compute_logw_and_logz(beta)
+    except Exception as e:
+        res.violate(f"{key}:raises:{type(e).__name__}", f"{msg}: compute_logw_and_logz raised {e!r}", cc)
+        return False
+    res.evals += 1
+    ref_lw, ref_lz = mis.logw_float([np.array(b, dtype=float) for b in batches], [float(b) for b in betas], [float(z) for z in logzs], beta)
+    ref_lw, ref_lz = [D(float(v)) for v in ref_lw], D(float(ref_lz))
+    tol = _tol(batches, betas, logzs, beta) * (2.0 ** 29 if single else 1.0) + 1e-9 * (1 if single else 0)  # single-precision input: single-precision answer
+    lw = np.asarray(lw, dtype=float)
+    N = sum(len(b) for b in batches)
+    if lw.shape != (N,) or not np.all(np.isfinite(lw)):
+        res.violate(f"{key}:finite", f"{msg}: log-weights not finite / wrong shape: {lw.tolist()}", cc)
+        return False
+    err = max(abs(D(float(a)) - r) for a, r in zip(lw, ref_lw))
+    if err > tol or abs(D(float(lz)) - ref_lz) > tol:
+        res.violate(f"{key}:formula", f"{msg}: log-weights / logZ differ from the mixture formula by {float(err):.3g} / {float(abs(D(float(lz)) - ref_lz)):.3g} (tol {tol:.3g}); "
+                    f"history batches={batches} betas={betas} logz={logzs}, target beta={beta}", cc)
+        return False
+    wn = np.exp(np.asarray(lwn, dtype=float))
+    if abs(float(wn.sum()) - 1.0) > 1e-12 + 4 * N * tol:
+        res.violate(f"{key}:normalised", f"{msg}: normalised weights sum to {wn.sum()!r}", cc)
+        return False
+    return True
+
+
+def run_typed(case):
+    """The same (integer-valued) history stored through every legal spelling of its entries: integer / float32 / read-only / strided / list
+    log-likelihood batches, Python and numpy scalars of every kind for beta and logZ.  Reference: the decimal mixture formula."""
+    res = Res()
+    sizes, betas = case["sizes"], case["betas"]
+    N = sum(sizes)
+    offs = np.cumsum([0] + sizes)
+    only = case.get("only")
+    for zi, logzs in enumerate(itertools.product(ILOGZ, repeat=len(sizes))):
+        for o in range(len(ILOGL)):
+            vec = [ILOGL[(o + 2 * i) % len(ILOGL)] for i in range(N)]
+            batches = [vec[offs[t]:offs[t + 1]] for t in range(len(sizes))]
+            for aspell in ARRAY_SPELL:
+                for bspell, zspell in (("float", "float"), ("int", "int"), ("np.float64", "np.int64"), ("np.float32", "np.float32"), ("np.int64", "float"), ("0-d array", "0-d array"), ("float", "int")):
+                    if (zi + o) % 3 and aspell not in ("f64", "i64") and not only:
+                        continue  # the rarer array spellings on every third history
+                    tag = [list(logzs), o, aspell, bspell, zspell]
+                    if only and only != tag:
+                        continue
+                    cc = dict(case, only=tag)
+                    for beta in TARGETS:
+                        try:
+                            st = build_typed(batches, betas, logzs, aspell, bspell, zspell)
+                        except Exception as e:
+                            res.violate(f"typed:build:{type(e).__name__}", f"storing a history with logl as {aspell}, beta as {bspell}, logz as {zspell} raised {e!r}", cc)
+                            break
+                        ok = _compare(res, f"typed:{aspell}/{bspell}/{zspell}", f"history stored with log-likelihood batches as {aspell}, beta as {bspell}, logZ as {zspell}",
+                                      st, batches, list(betas), list(logzs), beta, cc, single=("32" in aspell + bspell + zspell))
+                        res.outcome((tuple(sizes), tuple(betas), logzs, o, aspell, bspell, zspell, beta), nontrivial=aspell != "f64" or bspell != "float" or zspell != "float")
+                        if not ok:
+                            break
+    res.states += 1
+    return res
+
+
+def run_objects(case):
+    """Several StateManager objects alive in one process, holding different histories of one shape: every ordered query sequence of
+    length <= 3 over them (no state change in between).  Each answer must be the formula applied to the history of the object asked."""
+    res = Res()
+    sizes, betas = case["sizes"], case["betas"]
+    N = sum(sizes)
+    offs = np.cumsum([0] + sizes)
+    hists = []
+    for h in range(3):
+        vec = [LOGL[(2 + h + (1 + h) * i) % 7] for i in range(N)]
+        hists.append(([vec[offs[t]:offs[t + 1]] for t in range(len(sizes))], [LOGZ[(h + 2 * t) % 5] for t in range(len(sizes))]))
+    seqs = [q for r in (2, 3) for q in itertools.product(range(3), repeat=r) if len(set(q)) > 1]
+    if case.get("only"):
+        seqs = [tuple(case["only"])]
+    for q in seqs:
+        objs = [build(b, betas, z) for b, z in hists]  # all three alive before the first query
+        for step, k in enumerate(q):
+            beta = TARGETS[(step + k) % len(TARGETS)] if case["vary_beta"] else 1.0
+            cc = dict(case, only=list(q[: step + 1]))
+            res.trans += 1
+            ok = _compare(res, "objects", f"three StateManagers alive (same batch sizes {sizes} and temperatures {betas}, different log-likelihoods and logZ); queries so far on objects {list(q[:step])}, now object {k}",
+                          objs[k], hists[k][0], list(betas), hists[k][1], beta, cc)
+            if not ok:
+                break
+        res.outcome((tuple(sizes), tuple(betas), q, case["vary_beta"]), nontrivial=True)
+    res.states += 1
+    return res
+
+
+KINDS = {"typed": run_typed, "objects": run_objects, "ladder": run_ladder, "block": run_block, "one": run_one, "posterior": run_posterior}
 
 
 def plan(ctx):
@@ -244,6 +361,10 @@ def plan(ctx):
             T = len(sizes)
             post.append({"kind": "posterior", "sizes": sizes, "betas": [0.0, 0.4, 1.0][:T] if T == 3 else [0.0, 1.0], "logzs": [0.0, -1.5, -2.5][:T], "scale": scale})
     ctx.explore("posterior-accessor", post)
+    shapes = [([1], [0.0]), ([3], [1.0]), ([2, 1], [0.0, 1.0]), ([1, 3], [1.0, 0.0]), ([2, 2], [0.0, 0.5]), ([1, 2, 3], [0.0, 0.25, 1.0])] + ([([3, 1, 2], [1.0, 0.0, 0.5]), ([1, 1, 1, 2], [0.0, 0.0, 0.5, 1.0])] if th else [])
+    ctx.explore("typed-histories", [{"kind": "typed", "sizes": sz, "betas": bt} for sz, bt in shapes])
+    ctx.explore("several-live-objects", [{"kind": "objects", "sizes": sz, "betas": bt, "vary_beta": vb} for sz, bt in shapes for vb in (False, True)])
+    ctx.bounds.update({"typed_array_spellings": list(ARRAY_SPELL), "typed_scalar_spellings": list(SCALAR_SPELL), "live_objects": 3, "query_sequences_len": [2, 3]})
     rungs = [(4, 64), (16, 256), (64, 1024), (160, 820)] + ([(160, 1700), (400, 700)] if th else [])
     ctx.bounds.update({"size_ladder_NxT": [T * (T * n + T) for T, n in rungs]})
     ctx.explore("size-ladder", [{"kind": "ladder", "T": T, "n_t": n} for T, n in rungs], parallel=False)
